@@ -137,6 +137,8 @@ def check(ctx: Ctx) -> None:
     # the upper landmark is whatever the index is compared with besides 0: len(<list of variations>) or a local holding it
     ups = sorted({norm(x) for c_ in ast.walk(gi[0].test) if isinstance(c_, ast.Compare) for x in [c_.left] + list(c_.comparators)
                   if norm(x) not in (iv, '0')})
+    if len(ups) == 1 and isinstance(gi[0].test, ast.Call):
+        pass
     if len(ups) != 1:
         ctx.error('C05.m: the guard `%s` compares the index with %s (one upper bound expected; cannot tell)' % (norm(gi[0].test)[:60], ups))
     N_ = ups[0]
